@@ -23,7 +23,7 @@ COMPONENTS_STUB = ["RandomSource.randint/random_float (SimRandom, stream R)", "s
 ASSUMPTIONS = ["library error types are GeneticEngineError, SynthesisException, InvalidGrammarException",
                "typing is judged against the generated specification, exact base types (True is not an int)"]
 
-FEAT = features(tuple=2, union=2, list=2, annlist=3, flaky=1, dependent=1, interval=1, concrete_start=1, nested_generic=1, nested_list=1, self_ref=1, deep_chain=1, multi_dependent=1, falsy=1, future_annotations=1, hollow=1, inherited_ctor=1, union_generic=1)
+FEAT = features(tuple=2, union=2, list=2, annlist=3, flaky=1, dependent=1, interval=1, concrete_start=1, nested_generic=1, nested_list=1, self_ref=1, deep_chain=1, multi_dependent=1, falsy=1, future_annotations=1, hollow=1, inherited_ctor=1, union_generic=1, shared_handlers=1)
 
 
 def budget(tier):
